@@ -125,12 +125,14 @@ def run_config(cfg):
             bb, klb, _ = _scenario_blocks(mods, cfg["second"], SC.SymSrc("b."), epb)
             argv = ["-i", "in.pcapng", "-o", "o.pcapng", "-s", "k.log"]
             klr = mods["tlexport.keylog_reader"]
-            klr.get_keys_from_string = lambda text: P.keylog_objects(mods, klb)
-            alone = _summ(RD.run_main(mods, argv, RD.RunEnv(mods, bb, files={"k.log": ""})))
             klr.get_keys_from_string = lambda text: P.keylog_objects(mods, kla)
             RD.run_main(mods, argv, RD.RunEnv(mods, ba, files={"k.log": ""}))
             klr.get_keys_from_string = lambda text: P.keylog_objects(mods, klb)
             after = _summ(RD.run_main(mods, argv, RD.RunEnv(mods, bb, files={"k.log": ""}), reset_globals=False))
+            # the reference: the second capture alone in the state of a new process (freshly imported modules)
+            mods2 = P.setup_symbolic(fresh=True)
+            mods2["tlexport.keylog_reader"].get_keys_from_string = lambda text: P.keylog_objects(mods2, klb)
+            alone = _summ(RD.run_main(mods2, argv, RD.RunEnv(mods2, bb, files={"k.log": ""})))
         except (Exception, RD.ExitCalled) as e:
             import traceback
             c.fail("no-exception", "%s: %s %s" % (type(e).__name__, e, traceback.format_exc().splitlines()[-3:-1]))
@@ -191,11 +193,14 @@ def _replay_rerun(cfg, inp):
         for nm, pk, kl in (("a", pa, ka), ("b", pb, kb)):
             pcapng.write_capture(os.path.join(d, nm + ".pcapng"), pk)
             open(os.path.join(d, nm + ".log"), "w").write(e2e.keylog_text(kl))
-        prog = ("import sys, tlexport.main as m\n"
-                "def run(i, o, s):\n    sys.argv = ['tlexport', '-i', i, '-o', o, '-s', s]\n    m.run()\n"
+        # as in the symbolic harness both runs use the same command line: the files are replaced between the runs
+        prog = ("import sys, shutil, tlexport.main as m\n"
+                "def run(x):\n    shutil.copy(x + '.pcapng', 'in.pcapng'); shutil.copy(x + '.log', 'k.log')\n"
+                "    sys.argv = ['tlexport', '-i', 'in.pcapng', '-o', 'o.pcapng', '-s', 'k.log']\n    m.run()\n"
                 "mode = sys.argv[1]\n"
-                "if mode == 'both': run('a.pcapng', 'oa.pcapng', 'a.log')\n"
-                "run('b.pcapng', 'ob_' + mode + '.pcapng', 'b.log')\n")
+                "if mode == 'both': run('a')\n"
+                "run('b')\n"
+                "shutil.copy('o.pcapng', 'ob_' + mode + '.pcapng')\n")
         env = dict(os.environ)
         env["PYTHONPATH"] = e2e.REPO
         for mode in ("alone", "both"):
